@@ -1522,7 +1522,15 @@ where
                     opening.log_arity
                 )));
             }
-            let expected_coeffs = ((1usize << expected_log_arity) - 1) * ef_dim;
+            let expected_coeffs = u32::try_from(expected_log_arity)
+                .ok()
+                .and_then(|l| 1usize.checked_shl(l))
+                .and_then(|arity| (arity - 1).checked_mul(ef_dim))
+                .ok_or_else(|| {
+                    VerificationError::InvalidProofShape(format!(
+                        "query {q} phase {phase}: log_arity {expected_log_arity} is out of range"
+                    ))
+                })?;
             if opening.sibling_coefficients.len() != expected_coeffs {
                 return Err(VerificationError::InvalidProofShape(format!(
                     "query {q} phase {phase}: sibling coefficient count must be \
